@@ -99,7 +99,10 @@ def pipeline(tid, spec, gd, rng, events):
         events.append(rate)
         return
     events.append(rate)
-    if not rate["connected"] or n < 16:
+    # Decomposition only for n >= 48: on tiny matrices (k = 6 eigenvalues requested from a 21 x 21 matrix, where ARPACK's
+    # Krylov space is nearly the full space) scipy's eigs was observed to MISS the zero eigenvalue depending on ARPACK's
+    # internal random start vector (not reproducible, history dependent) - see DESIGN 11.6
+    if not rate["connected"] or n < 48:
         return
     for sigma, which in ((None, "LR"), (0.05 * float(np.abs(Q.diagonal()).max()), "LM")):
         dec = dict(tid=tid, ev="Decompose", err="", lam=[], dense=[], imag=0, spread=0, k=6, sigma=0 if sigma is None else 1)
